@@ -1,3 +1,265 @@
 package main
 
-func genConstants() {}
+import (
+	"bytes"
+	"fmt"
+	"go/ast"
+	"go/printer"
+	"go/token"
+	"strings"
+)
+
+func src(n ast.Node) string {
+	if n == nil {
+		return ""
+	}
+	var buf bytes.Buffer
+	printer.Fprint(&buf, fset, n)
+	return strings.Join(strings.Fields(buf.String()), " ")
+}
+
+func findFunc(f *ast.File, recv, name string) *ast.FuncDecl {
+	for _, d := range f.Decls {
+		fd, ok := d.(*ast.FuncDecl)
+		if !ok || fd.Name.Name != name {
+			continue
+		}
+		r := ""
+		if fd.Recv != nil && len(fd.Recv.List) == 1 {
+			r = strings.TrimPrefix(src(fd.Recv.List[0].Type), "*")
+		}
+		if r == recv {
+			return fd
+		}
+	}
+	return nil
+}
+
+type leanConsts struct {
+	sb strings.Builder
+}
+
+func (c *leanConsts) nat(name string, v int64, doc string) {
+	c.sb.WriteString(fmt.Sprintf("/-- %s -/\ndef %s : Nat := %d\n\n", doc, name, v))
+	all["const."+name] = v
+}
+
+func (c *leanConsts) boolean(name string, v bool, doc string) {
+	c.sb.WriteString(fmt.Sprintf("/-- %s -/\ndef %s : Bool := %s\n\n", doc, name, leanBool(v)))
+	all["const."+name] = v
+}
+
+// genConstants: numeric constants and small structural facts the models are parameterised by.
+func genConstants() {
+	c := &leanConsts{}
+	c.sb.WriteString("namespace SxVerif.Generated\n\n")
+
+	// ---- command/root.go: startPortScanEngine (chunk loop) ----
+	root := parseFile("command/root.go")
+	chunkSize := int64(-1)
+	emptyRunsOnce := false
+	if fd := findFunc(root, "", "startPortScanEngine"); fd == nil {
+		problem("startPortScanEngine: not found")
+	} else {
+		var loop *ast.ForStmt
+		for _, st := range fd.Body.List {
+			switch s := st.(type) {
+			case *ast.AssignStmt:
+				if len(s.Lhs) == 1 && src(s.Lhs[0]) == "chunkSize" {
+					if v, ok := intLit(s.Rhs[0]); ok {
+						chunkSize = v
+					} else {
+						problem("startPortScanEngine: chunkSize is not a literal")
+					}
+				} else {
+					problem("startPortScanEngine: unexpected statement %q", src(s))
+				}
+			case *ast.IfStmt:
+				// `if len(conf.scanRange.Ports) == 0 { return startPacketScanEngine(ctx, conf) }`
+				if loop == nil && src(s.Cond) == "len(conf.scanRange.Ports) == 0" && s.Else == nil && len(s.Body.List) == 1 &&
+					src(s.Body.List[0]) == "return startPacketScanEngine(ctx, conf)" {
+					emptyRunsOnce = true
+				} else {
+					problem("startPortScanEngine: unexpected if %q", src(s))
+				}
+			case *ast.ForStmt:
+				loop = s
+			case *ast.ReturnStmt:
+				if src(s) != "return nil" {
+					problem("startPortScanEngine: unexpected return %q", src(s))
+				}
+			default:
+				problem("startPortScanEngine: unexpected statement %q", src(st))
+			}
+		}
+		if loop == nil {
+			problem("startPortScanEngine: no chunk loop")
+		} else {
+			if src(loop.Init) != "i := 0" || src(loop.Cond) != "i < len(conf.scanRange.Ports)" || src(loop.Post) != "i += chunkSize" {
+				problem("startPortScanEngine: loop header %q; %q; %q", src(loop.Init), src(loop.Cond), src(loop.Post))
+			}
+			want := []string{
+				"end := i + chunkSize",
+				"if end > len(conf.scanRange.Ports) { end = len(conf.scanRange.Ports) }",
+				"newConf := *conf",
+				"newConf.scanRange.Ports = conf.scanRange.Ports[i:end]",
+				"if err := startPacketScanEngine(ctx, &newConf); err != nil { return err }",
+			}
+			if len(loop.Body.List) != len(want) {
+				problem("startPortScanEngine: loop body has %d statements", len(loop.Body.List))
+			} else {
+				for i, st := range loop.Body.List {
+					if src(st) != want[i] {
+						problem("startPortScanEngine: loop body statement %d is %q", i, src(st))
+					}
+				}
+			}
+		}
+	}
+	c.nat("chunkSize", chunkSize, "`chunkSize` of `startPortScanEngine` (command/root.go)")
+	c.boolean("emptyRunsOnce", emptyRunsOnce, "`startPortScanEngine` runs one engine when there are no port ranges (pairs file)")
+
+	// ---- channel capacities: make(chan T, N) per function ----
+	capOf := func(file, recv, fn, varName string) int64 {
+		f := parseFile(file)
+		fd := findFunc(f, recv, fn)
+		if fd == nil {
+			problem("%s: func %s.%s not found", file, recv, fn)
+			return -1
+		}
+		res := int64(-1)
+		ast.Inspect(fd.Body, func(n ast.Node) bool {
+			as, ok := n.(*ast.AssignStmt)
+			if !ok || len(as.Lhs) != 1 || len(as.Rhs) != 1 || src(as.Lhs[0]) != varName {
+				return true
+			}
+			call, ok := as.Rhs[0].(*ast.CallExpr)
+			if !ok || src(call.Fun) != "make" {
+				return true
+			}
+			if len(call.Args) == 1 {
+				res = 0
+			} else if v, ok := intLit(call.Args[1]); ok {
+				res = v
+			} else {
+				res = -2 // computed capacity (e.g. cap(requests), len(channels)*100)
+			}
+			return true
+		})
+		if res == -1 {
+			problem("%s: %s.%s: make(chan) for %s not found", file, recv, fn, varName)
+		}
+		return res
+	}
+	c.nat("capPortsChan", capOf("pkg/scan/request.go", "portGenerator", "Ports", "out"), "buffer of the port channel")
+	c.nat("capIPsChan", capOf("pkg/scan/request.go", "ipGenerator", "IPs", "out"), "buffer of the address channel")
+	c.nat("capIPPortChan", capOf("pkg/scan/request.go", "ipPortGenerator", "GenerateRequests", "out"), "buffer of the ip×port request channel")
+	c.nat("capPacketGenChan", capOf("pkg/scan/generator.go", "packetGenerator", "Packets", "out"), "buffer of one packet worker's output")
+	c.nat("capSenderErrChan", capOf("pkg/packet/sender.go", "sender", "SendPackets", "errc"), "buffer of the sender's error channel")
+	c.nat("capReceiverErrChan", capOf("pkg/packet/receiver.go", "receiver", "ReceivePackets", "errc"), "buffer of the receiver's error channel")
+	c.nat("capMergeErrChan", capOf("pkg/scan/engine.go", "", "mergeErrChan", "out"), "buffer of the merged error channel")
+	c.nat("capEngineErrChan", capOf("pkg/scan/engine.go", "GenericEngine", "Start", "errc"), "buffer of the generic engine's error channel")
+	c.nat("capEngineDoneChan", capOf("pkg/scan/engine.go", "GenericEngine", "Start", "done"), "buffer of the generic engine's done channel (0 = unbuffered)")
+
+	// ---- literal constants in command/config.go ----
+	cfg := parseFile("command/config.go")
+	constVal := func(name string) string {
+		out := ""
+		ast.Inspect(cfg, func(n ast.Node) bool {
+			vs, ok := n.(*ast.ValueSpec)
+			if ok {
+				for i, nm := range vs.Names {
+					if nm.Name == name && i < len(vs.Values) {
+						out = src(vs.Values[i])
+					}
+				}
+			}
+			return true
+		})
+		return out
+	}
+	dur := func(s string) int64 { // "300 * time.Millisecond" -> ns
+		parts := strings.Split(s, " * ")
+		if len(parts) != 2 {
+			return -1
+		}
+		var n int64
+		if _, err := fmt.Sscan(parts[0], &n); err != nil {
+			return -1
+		}
+		unit := map[string]int64{"time.Nanosecond": 1, "time.Microsecond": 1e3, "time.Millisecond": 1e6, "time.Second": 1e9, "time.Minute": 60e9}[parts[1]]
+		if unit == 0 {
+			return -1
+		}
+		return n * unit
+	}
+	if v := dur(constVal("defaultExitDelay")); v < 0 {
+		problem("defaultExitDelay: unrecognised %q", constVal("defaultExitDelay"))
+		c.nat("defaultExitDelayNs", 0, "`defaultExitDelay` in ns (UNRECOGNISED)")
+	} else {
+		c.nat("defaultExitDelayNs", v, "`defaultExitDelay` in ns")
+	}
+	var wc int64 = -1
+	fmt.Sscan(constVal("defaultWorkerCount"), &wc)
+	c.nat("defaultWorkerCount", wc, "`defaultWorkerCount`")
+
+	// result channel capacity used by every command: scan.NewResultChan(ctx, N)
+	resCaps := map[int64]bool{}
+	for _, file := range []string{"command/config.go", "command/tcp.go", "command/udp.go", "command/icmp.go", "command/arp.go"} {
+		f := parseFile(file)
+		ast.Inspect(f, func(n ast.Node) bool {
+			call, ok := n.(*ast.CallExpr)
+			if ok && src(call.Fun) == "scan.NewResultChan" && len(call.Args) == 2 {
+				if v, ok := intLit(call.Args[1]); ok {
+					resCaps[v] = true
+				} else {
+					problem("%s: NewResultChan capacity is not a literal", file)
+				}
+			}
+			return true
+		})
+	}
+	if len(resCaps) != 1 {
+		problem("NewResultChan: capacities differ across commands: %v", resCaps)
+	}
+	for v := range resCaps {
+		c.nat("resultChanCap", v, "capacity passed to `scan.NewResultChan` by every command")
+	}
+
+	// ---- spoofed field ranges in the fillers: rand.Intn arguments ----
+	for _, ff := range []struct{ file, pkg string }{{"pkg/scan/tcp/tcp.go", "tcp"}, {"pkg/scan/udp/udp.go", "udp"}, {"pkg/scan/icmp/icmp.go", "icmp"}} {
+		f := parseFile(ff.file)
+		fd := findFunc(f, "PacketFiller", "Fill")
+		if fd == nil {
+			problem("%s: Fill not found", ff.file)
+			continue
+		}
+		ast.Inspect(fd.Body, func(n ast.Node) bool {
+			kv, ok := n.(*ast.KeyValueExpr)
+			if !ok {
+				return true
+			}
+			key := src(kv.Key)
+			val := src(kv.Value)
+			switch key {
+			case "Id":
+				// uint16(1 + rand.Intn(65535))
+				want := "uint16(1 + rand.Intn(65535))"
+				if val != want {
+					problem("%s: Id is %q", ff.file, val)
+				}
+			case "SrcPort":
+				want1 := "layers.TCPPort(32768 + rand.Intn(61000-32768))"
+				want2 := "layers.UDPPort(32768 + rand.Intn(61000-32768))"
+				if val != want1 && val != want2 {
+					problem("%s: SrcPort is %q", ff.file, val)
+				}
+			}
+			return true
+		})
+	}
+	_ = token.ADD
+
+	c.sb.WriteString("end SxVerif.Generated\n")
+	writeLean("Constants.lean", c.sb.String())
+}
